@@ -50,6 +50,9 @@ def tx_catalogue(r, big=False):
     mk("sum-overflow-then-ok", lambda d: d.update(vout=[{"value": M, "script": b""}, {"value": 1, "script": b""}, {"value": 0, "script": b""}]))
     mk("dup-input", lambda d: d["vin"].append(dict(d["vin"][0])))
     mk("dup-input-other-script", lambda d: d["vin"].append(dict(d["vin"][0], script=b"\x51", seq=5)))
+    for nn in (0x7fffffff, 0x80000000, 0xffffffff, 0xfffffffe):
+        mk("dup-input-n-%x" % nn, lambda d, nn=nn: (d["vin"][0].update(n=nn), d["vin"].append(dict(d["vin"][0], seq=1))))
+        mk("same-hash-n-%x-and-%x-ok" % (nn, nn ^ 1), lambda d, nn=nn: (d["vin"][0].update(n=nn), d["vin"].append(dict(d["vin"][0], n=nn ^ 1))))
     mk("same-hash-other-n-ok", lambda d: d["vin"].append(dict(d["vin"][0], n=77)))
     mk("null-prevout", lambda d: d["vin"].append(dict(NULL, script=b"\x51\x51", seq=0)))
     mk("null-hash-only-ok", lambda d: d["vin"].append({"hash": bytes(32), "n": 0, "script": b"", "seq": 0}))
